@@ -81,7 +81,7 @@ def gen_termset(rng):
         pr = rng.choice([None, None, 5, 15, 15, 20])
         if pr is not None:
             attrs.append(str(pr))
-        if rng.random() < 0.25:
+        if rng.random() < 0.35:
             attrs.append("prefer")
         fr = rng.random()
         if fr < 0.12:
@@ -92,7 +92,13 @@ def gen_termset(rng):
     return terms
 
 
+NAME_POOL = ["T%d", "name%d", "ID%d", "Zed%d", "a%d", "Kw%d"]
+
+
 def grammar_of(terms, rng):
+    # terminal names decide the final tie-break of the action sort: vary them
+    for i, t in enumerate(terms):
+        t["name"] = rng.choice(NAME_POOL) % i
     names = [t["name"] for t in terms]
     k = len(names)
     s1 = [n for n in names if rng.random() < 0.7] or names[:1]
@@ -109,6 +115,9 @@ def grammar_of(terms, rng):
             lines.append("%s: /%s/%s;" % (t["name"], t["value"], a))
         else:
             lines.append("%s: %s;" % (t["name"], a.strip()))
+    if rng.random() < 0.3:
+        # string terminals fully matched by KEYWORD become whole-word keyword regexes
+        lines.append("KEYWORD: /%s/;" % rng.choice(["\\w+", "[a-z]+", "i\\w*"]))
     return "\n".join(lines) + "\n"
 
 
@@ -116,7 +125,7 @@ def units(tier):
     rng = random.Random(seed())
     fixed = random.Random(20260927)
     cases = []
-    for i in range(250 if tier == "quick" else 3000):
+    for i in range(1600 if tier == "quick" else 12000):
         r = fixed if i % 2 == 0 else rng
         terms = gen_termset(r)
         cases.append({"terms": terms, "grammar": grammar_of(terms, r), "ignore_case": i % 5 == 0})
@@ -138,6 +147,8 @@ def run_unit(u):
     for c in u["cases"]:
         gtxt = c["grammar"]
         recs = {t["name"]: CUSTOM[t["value"]] for t in c["terms"] if t["kind"] == "custom"}
+        if "KEYWORD" in gtxt:
+            bump(st, "with_keyword_rule")
         try:
             g = Grammar.from_string(gtxt, recognizers=recs, ignore_case=c["ignore_case"])
         except Exception as e:
